@@ -83,6 +83,13 @@ static void c18_child(const void *job, size_t n) {
 		payload = realloc(payload, cs.plen ? (size_t) cs.plen : 1);
 		for (int i = 0; i < cs.plen; i++) payload[i] = (i % 7 == 3) ? cs.fillbyte : (uint8_t) (0x30 + i % 10);
 		uint8_t rtype = 0, rdata[300]; int rlen = f->ref(cs.a, cs.plen, payload, &rtype, rdata);
+		int unspecified = 0;
+		if (rlen <= -100) { unspecified = 1; rlen = -rlen - 100; }        /* the message definitions leave these arguments open */
+		if (rlen >= 0) {
+			int depth = f->takes_node ? j.node : 0;
+			if (3 + depth + rlen > 127) rlen = -1;                          /* the length byte would exceed 127: must be refused */
+			else if (rlen > 121) unspecified = 1;                           /* fits at this depth but not at depth 3: a depth-independent limit is acceptable */
+		}
 		vs_sleep_us(2500000);                                 /* earlier requests expire: every call meets an empty budget */
 		f->call(node, cs.a, cs.plen, payload);
 		bidib_flush();
@@ -94,6 +101,7 @@ static void c18_child(const void *job, size_t n) {
 		size_t len = env_out_len() - woff; const uint8_t *w = env_out() + woff; woff = env_out_len();
 		uint8_t dt[4]; int deferred = vx_node_deferred(dest, dt, 4);
 		if (deferred) { res_violation("unexpected-deferral", "%s: message was held back although the budget is empty", what); bad = 1; }
+		else if (unspecified && len == 0 && vx_send_buffer_index() == 0) { rejected++; res_printf("C c18_unspecified_rejected 1\n"); }
 		else if (rlen < 0) {
 			rejected++;
 			if (len != 0 || vx_send_buffer_index() != 0) { char cls[160]; snprintf(cls, sizeof cls, "accepted-out-of-range fn=%s: parameters outside the documented range were not rejected", f->name);
@@ -109,13 +117,13 @@ static void c18_child(const void *job, size_t n) {
 				rc_msg_t *m = &pk[0].msgs[0]; seq = seq % 255 + 1;
 				if (m->raw[0] > 127) { char cls[160]; snprintf(cls, sizeof cls, "length-byte-exceeds-127 fn=%s", f->name); res_violation(cls, "%s: length byte %d", what, m->raw[0]); bad = 1; }
 				if (m->type != rtype || m->type >= 0x80 || memcmp(m->addr, dest, 4) || m->dlen != rlen || memcmp(m->data, rdata, (size_t) rlen)) {
-					char cls[160]; snprintf(cls, sizeof cls, "wrong-encoding fn=%s: type/destination/data differ from the specified encoding", f->name);
+					char cls[200]; snprintf(cls, sizeof cls, "wrong-encoding fn=%s wire-data-bytes=%d specified=%d: type/destination/data differ from the specified encoding", f->name, m->dlen, rlen);
 					res_violation(cls, "%s: wire type %02x dest %02x.%02x.%02x data %s; expected type %02x data %s", what, m->type, m->addr[0], m->addr[1], m->addr[2], hx_hex(m->data, (size_t) m->dlen), rtype, hx_hex(rdata, (size_t) rlen)); bad = 1; }
 				hx_hash_add(&h, m->raw, (size_t) m->rawlen);
 			}
 		}
 		free(payload);
-		if (bad) { res_printf("I %ld\n", c); break; }
+		if (bad && hx_san_last_was_write) { res_printf("I %ld\n", c); break; }   /* only possible memory corruption ends the batch */
 	}
 	res_printf("O %llx %llx\nC c18_accepted %ld\nC c18_rejected %ld\n", (unsigned long long) (h.a + (uint64_t) j.fn), (unsigned long long) (h.b ^ (uint64_t) j.start), accepted, rejected);
 	res_finish();
